@@ -32,7 +32,7 @@ ENGINE = "bfs"
 RULE = ("BFS over histories of add_breakpoint / set_breakpoint / remove_breakpoints_by_address / remove_breakpoints_by_callback / run-or-continue "
         "on four fixed programs x {python, gcc}; addresses: block starts, mid-block instructions (reached several times, inside two overlapping "
         "translated blocks), a mid-instruction address, a never-reached address; callbacks: plain (two of them), self-removing, returning False; "
-        "from cold, warm (fully translated) and stopped-in-the-middle seeds; a state is distinct by (registry, position in the trace, pending "
+        "from cold, warm (fully translated), stopped-in-the-middle and one-breakpoint-already-removed seeds; a state is distinct by (registry, position in the trace, pending "
         "callbacks, translated block starts, forced splits)")
 LEVEL_TEXT = ("Every history of registry operations and runs up to the depth bound is executed on the real jitter and compared with a hand-written "
               "instruction trace and a dictionary model of the registry, so breakpoints are added and removed both before and after the code was "
@@ -488,14 +488,22 @@ def outcome(st, ev):
 
 SEED_KINDS = {"cold": [], "self-removing registered": [("add", "MID", "S")], "warm": [("run",)],
               "stopped": [("add", "MID", "F"), ("run",)],
-              "stopped with a callback pending": [("add", "MID", "F"), ("add", "MID", "A"), ("run",)]}
+              "stopped with a callback pending": [("add", "MID", "F"), ("add", "MID", "A"), ("run",)],
+              # the registry has already lost a breakpoint (the forced split of `mid` was withdrawn): what is added next, on
+              # another mid-block instruction of code that is (re)translated afterwards, must still get its split
+              "added then removed by address": [("add", "MID", "A"), ("rm_addr", "MID")],
+              "added then removed by callback": [("add", "MID", "A"), ("rm_cb", "A")],
+              "self-removed during a run": [("add", "MID", "S"), ("run",)]}
 QUICK_COMBOS = [("loop", "gcc"), ("jmpmid", "python")]
 ALL_COMBOS = [(p, b) for p in PROG_ORDER for b in BACKENDS]
 # phase -> (menu, depth, [(program, backend, jit_maxline, seed kind)])
 PHASES = {
-    "quick": ("small", 2, [(p, b, 50, k) for (p, b) in QUICK_COMBOS for k in ("cold", "self-removing registered", "warm", "stopped")]),
+    "quick": ("small", 2, [(p, b, 50, k) for (p, b) in QUICK_COMBOS
+                           for k in ("cold", "self-removing registered", "warm", "stopped", "added then removed by address")]),
     "deep": ("small", 3, [(p, b, 50, "cold") for (p, b) in ALL_COMBOS if p != "straight"]),
-    "wide": ("wide", 2, [(p, b, 50, k) for (p, b) in ALL_COMBOS for k in ("cold", "warm", "stopped with a callback pending")] +
+    "wide": ("wide", 2, [(p, b, 50, k) for (p, b) in ALL_COMBOS
+                         for k in ("cold", "warm", "stopped with a callback pending", "added then removed by address",
+                                   "added then removed by callback", "self-removed during a run")] +
              [(p, "python", 50, "self-removing registered") for p in PROG_ORDER] +
              [(p, "python", 2, k) for p in PROG_ORDER for k in ("cold", "warm")]),
 }
